@@ -1001,6 +1001,7 @@ fn run_world(world: &World, rt: &tokio::runtime::Runtime, l: &mut Local, cnt: &C
 fn main() {
     // a stack overflow / abort in the code under test must become a verdict, not a dead check
     vcore::supervise("C08");
+    vcore::install_log_evaluation(); // logging is part of the environment: log arguments are evaluated as under a real subscriber
     let ctx = Ctx::from_args("C08", "exploration");
     let thorough = !ctx.quick();
 
